@@ -78,7 +78,8 @@ def nontrivial(y):
 @st.composite
 def hp_cases(draw):
     # two smoothing parameters: the second call, on a series of the same length, must not depend on the first
-    return {"series": draw(series()), "log10_lamb": draw(st.sampled_from([k / 4 for k in range(-12, 29)])),
+    return {"series": draw(series()), "as_int": draw(st.integers(0, 5)) == 0,
+            "log10_lamb": draw(st.sampled_from([k / 4 for k in range(-12, 29)])),
             "log10_lamb_before": draw(st.one_of(st.none(), st.sampled_from([k / 2 for k in range(-6, 15)])))}
 
 
@@ -87,6 +88,8 @@ def check_hp(ctx: Ctx, case):
 
     sub = "hp_filter"
     y = build(case["series"])
+    if case.get("as_int") and np.max(np.abs(y)) < 1e15:
+        y = np.rint(y * (10.0 if np.max(np.abs(y)) < 50 else 1.0)).astype(np.int64)
     lamb = 10.0 ** case["log10_lamb"]
     y0 = y.copy()
     ctx.count(sub, case, nontrivial(y), [case["series"]["shape"], f"lamb~1e{int(round(case['log10_lamb']))}"])
